@@ -48,6 +48,11 @@ def run_c14(tier):
     n_blocks = 0
     for e in entries:
         if e["source"] is None:
+            # every configuration of the family is valid and names existing packages: rejecting one (e.g. because a local import
+            # name built from the path is not an identifier) is this property's business
+            aux = e["cases"][0]["aux"]
+            v.disagree("valid-reference-rejected", {"yaml": e["yaml"]}, {"exit": e["tool"]["exit"], "errors": core.Report(e["tool"]["stdout"]).errors[:4],
+                                                                       "expected_packages": aux["used"]}, tags={"aliases": sorted(x["n"] for x in aux["table"])})
             continue
         aux = e["cases"][0]["aux"]
         blk = import_block(e["source"])
